@@ -78,8 +78,8 @@ CHECKS = {
    note="Only messages that travel in a single fragment are rewritten (configurations are chosen so that they do). HelloVerifyRequest is not a target: it is outside the Finished hash by design (RFC 6347 4.2.1). DTLS 1.3 messages after ServerHello are encrypted and cannot be rewritten by an on-path attacker.",
    technique="deterministic simulation: consistent in-transit rewriting of handshake messages (man in the middle in the simulated network)"),
  "C15": dict(level="exploration", design="§5 C15",
-   text="Seeded scripts of NAT rebinds, returns to the old address, and an on-path attacker that replays, forwards fresh or presents stale records from a third address, crossed with client/server connection ID lengths (absent, 0, 1, 4, 8, 32, 200 bytes), both protocol versions and a man in the middle that strips the return-routability extension; the server's RemoteAddr and everything it emits are checked against the statement (own CID on every protected record, 3x byte bound towards unvalidated addresses, change only after a challenge sent to the new address is answered from it in time, never without negotiation, never to the attacker). A second mode drives 2-3 clients through the real CID-routing listener on a simulated socket while they swap, change and borrow source addresses.",
-   note="The listener runs real routing code over a simulated PacketConn (build-time seam R2). The 'newest record' clause is exercised through stale-record scripts; DTLS 1.3 migration scripts are a quarter of the runs. Client-side migration (server changing address) is not scripted.",
+   text="Seeded scripts of NAT rebinds, returns to the old address, and an on-path attacker that replays, forwards fresh or presents stale records from a third address, crossed with client/server connection ID lengths (absent, 0, 1, 4, 8, 32, 200 bytes), both protocol versions and a man in the middle that strips the return-routability extension; the server's RemoteAddr and everything it emits are checked against the statement (own CID on every protected record, 3x byte bound towards unvalidated addresses, change only after a path_response carrying the cookie of the newest path_challenge sent to the new address arrives from it within one second - both decoded by the reference implementation -, a challenge only after an authentic newest record from that address, never without negotiation, never to the attacker), including periods in which every path_response is late while other traffic from the new address keeps flowing. A second mode drives 2-3 clients (optionally a mix of clients with and without connection IDs) through the real CID-routing listener on a simulated socket while they swap, change and borrow source addresses.",
+   note="The listener runs real routing code over a simulated PacketConn (build-time seam R2). The 'newest record' clause is exercised through stale-record and replay scripts and judged per challenge; DTLS 1.3 migration scripts are a quarter of the runs. Client-side migration (server changing address) is not scripted.",
    technique="deterministic simulation: seeded address-rewrite / replay scripts on a simulated network with a wire and RemoteAddr oracle"),
 }
 
